@@ -60,7 +60,7 @@ def main():
         by.setdefault(kind(o), []).append(o)
     ops = []
     for k, l in by.items():
-        c = CAP.get(k)
+        c = CAP.get(k, int(os.environ.get("MUT_DEFAULT_CAP", "0")) or None)
         ops += l if not c or len(l) <= c else l[:: len(l) // c + 1]
     golden = dict(zip(ops, sh([harness, "run"], inp="\n".join(ops) + "\n").stdout.split("\n")))
     print("ops", len(ops), flush=True)
